@@ -73,23 +73,23 @@ fn parse_args() -> Args {
 
 fn default_runs(p: P, thorough: bool) -> u64 {
     let (q, t) = match p {
-        P::C01 => (6_000, 120_000),
-        P::C02 => (3_000, 60_000),
-        P::C03 => (4_000, 80_000),
-        P::C04 => (20_000, 400_000),
-        P::C05 => (20_000, 400_000),
+        P::C01 => (36_000, 400_000),
+        P::C02 => (20_000, 300_000),
+        P::C03 => (8_000, 120_000),
+        P::C04 => (100_000, 1_500_000),
+        P::C05 => (25_000, 500_000),
         P::C06 => (3_000, 40_000),
-        P::C07 => (6_000, 120_000),
-        P::C08 => (6_000, 120_000),
-        P::C09 => (2_400, 48_000),
-        P::C10 => (6_720, 67_200),
-        P::C11 => (6_000, 120_000),
-        P::C12 => (1_280, 12_800),
-        P::C13 => (4_000, 80_000),
-        P::C14 => (9_000, 180_000),
-        P::C15 => (4_000, 80_000),
-        P::C16 => (3_000, 60_000),
-        P::C18 => (1_000, 10_000),
+        P::C07 => (40_000, 600_000),
+        P::C08 => (40_000, 600_000),
+        P::C09 => (9_600, 96_000),
+        P::C10 => (33_600, 336_000),
+        P::C11 => (30_000, 450_000),
+        P::C12 => (6_400, 64_000),
+        P::C13 => (20_000, 300_000),
+        P::C14 => (36_000, 500_000),
+        P::C15 => (40_000, 400_000),
+        P::C16 => (12_000, 160_000),
+        P::C18 => (4_000, 60_000),
     };
     if thorough {
         t
@@ -140,7 +140,86 @@ struct Batch {
     first_violation_run: Option<u64>,
 }
 
+/// C16 uses a process-global drop ledger, so its worlds must run one at a time per process: the
+/// batch is spread over child processes (one shard of the run indices each) instead of threads.
+fn run_batch_procs(p: P, master: u64, runs: u64, procs: usize, thorough: bool) -> Batch {
+    let exe = std::env::current_exe().expect("current exe");
+    let dir = std::env::temp_dir().join(format!("hpke-sim-shards-{}", std::process::id()));
+    let _ = std::fs::create_dir_all(&dir);
+    let mut kids = vec![];
+    for k in 0..procs {
+        let out = dir.join(format!("shard{}.json", k));
+        let child = std::process::Command::new(&exe)
+            .args(["shard", p.name(), "--seed", &master.to_string(), "--runs", &runs.to_string(), "--tier", if thorough { "thorough" } else { "quick" }, "--shard", &format!("{}/{}", k, procs), "--out", out.to_str().unwrap()])
+            .spawn()
+            .expect("spawn shard");
+        kids.push((child, out));
+    }
+    let mut outs: Vec<Option<RunOut>> = (0..runs).map(|_| None).collect();
+    let mut cov = Cov::new();
+    for (mut child, out) in kids {
+        let st = child.wait().expect("wait shard");
+        if !st.success() {
+            eprintln!("HARNESS ERROR: shard process failed: {:?}", st);
+            std::process::exit(2);
+        }
+        let txt = std::fs::read_to_string(&out).expect("shard output");
+        let v: serde_json::Value = serde_json::from_str(&txt).expect("shard json");
+        for r in v["runs"].as_array().unwrap() {
+            let i = r["i"].as_u64().unwrap() as usize;
+            let violation: Option<Violation> = if r["violation"].is_null() { None } else { Some(serde_json::from_value(r["violation"].clone()).unwrap()) };
+            outs[i] = Some(RunOut { sig: r["sig"].as_u64().unwrap(), nontrivial: r["nontrivial"].as_bool().unwrap(), violation, sample: r["sample"].as_str().map(|s| s.to_string()) });
+        }
+        for (k, n) in v["counters"].as_object().unwrap() {
+            cov.hit_n(k, n.as_u64().unwrap());
+        }
+        cov.events += v["events"].as_u64().unwrap();
+        cov.ops += v["ops"].as_u64().unwrap();
+        cov.max_pos = cov.max_pos.max(v["max_pos"].as_u64().unwrap());
+    }
+    let _ = std::fs::remove_dir_all(&dir);
+    let first = outs.iter().enumerate().find(|(_, o)| o.as_ref().map(|o| o.violation.is_some()).unwrap_or(false)).map(|(i, _)| i as u64);
+    Batch { outs, cov, first_violation_run: first }
+}
+
+fn cmd_shard(a: &Args) -> i32 {
+    let p = P::parse(&a.pos[0]).unwrap();
+    let master: u64 = a.opts["seed"].parse().unwrap();
+    let runs: u64 = a.opts["runs"].parse().unwrap();
+    let thorough = a.opts["tier"] == "thorough";
+    let (k, n) = {
+        let mut it = a.opts["shard"].split('/');
+        (it.next().unwrap().parse::<u64>().unwrap(), it.next().unwrap().parse::<u64>().unwrap())
+    };
+    let mut cov = Cov::new();
+    let mut rows = vec![];
+    let mut i = k;
+    while i < runs {
+        let case = gen_case(p, master, i, thorough);
+        let mut c = Cov::new();
+        let v = world_probes::execute(&case, &mut c);
+        let mut f = util::Fnv(c.sig);
+        if let Some(v) = &v {
+            f.put(v.invariant.as_bytes());
+            f.put_u64(v.at_event as u64);
+        }
+        cov.merge(&c);
+        let stop = v.is_some();
+        rows.push(json!({"i": i, "sig": f.0, "nontrivial": nontrivial(&case) && c.ops > 0, "violation": v, "sample": if i < 3 { Some(brief_case(&case)) } else { None }}));
+        if stop {
+            break;
+        }
+        i += n;
+    }
+    let out = json!({"runs": rows, "counters": cov.counters, "events": cov.events, "ops": cov.ops, "max_pos": cov.max_pos});
+    std::fs::write(&a.opts["out"], serde_json::to_string(&out).unwrap()).expect("write shard output");
+    0
+}
+
 fn run_batch(p: P, master: u64, runs: u64, workers: usize, thorough: bool, stop_on_violation: bool) -> Batch {
+    if p == P::C16 && workers > 1 {
+        return run_batch_procs(p, master, runs, workers, thorough);
+    }
     let next = Arc::new(AtomicU64::new(0));
     let stop_at = Arc::new(AtomicU64::new(u64::MAX));
     let results: Arc<Mutex<Vec<Option<RunOut>>>> = Arc::new(Mutex::new((0..runs).map(|_| None).collect()));
@@ -266,10 +345,7 @@ fn cmd_run(a: &Args) -> i32 {
     let thorough = a.opts.get("tier").map(|s| s == "thorough").unwrap_or(false);
     let master: u64 = a.opts.get("seed").and_then(|s| s.parse().ok()).unwrap_or(1);
     let runs: u64 = a.opts.get("runs").and_then(|s| s.parse().ok()).unwrap_or_else(|| default_runs(p, thorough));
-    let mut workers: usize = a.opts.get("workers").and_then(|s| s.parse().ok()).unwrap_or(16);
-    if p == P::C16 {
-        workers = 1; // the drop ledger is process-global: one world at a time
-    }
+    let workers: usize = a.opts.get("workers").and_then(|s| s.parse().ok()).unwrap_or(16);
     let evidence = a.opts.get("evidence").cloned().unwrap_or_else(|| format!("/verif/evidence/{}.json", p.name()));
     let replay_dir = a.opts.get("replay-dir").cloned().unwrap_or_else(|| format!("/verif/replays/{}", p.name()));
     let known_path = a.opts.get("known").cloned().unwrap_or_else(|| "/verif/known_findings.json".to_string());
@@ -431,10 +507,7 @@ fn cmd_digest(a: &Args) -> i32 {
     };
     let master: u64 = a.opts.get("seed").and_then(|s| s.parse().ok()).unwrap_or(1);
     let runs: u64 = a.opts.get("runs").and_then(|s| s.parse().ok()).unwrap_or(2000);
-    let mut workers: usize = a.opts.get("workers").and_then(|s| s.parse().ok()).unwrap_or(16);
-    if p == P::C16 {
-        workers = 1;
-    }
+    let workers: usize = a.opts.get("workers").and_then(|s| s.parse().ok()).unwrap_or(16);
     let batch = run_batch(p, master, runs, workers, false, false);
     let mut f = util::Fnv::new();
     for o in batch.outs.iter() {
@@ -452,6 +525,7 @@ fn main() {
         "run" => cmd_run(&a),
         "replay" => cmd_replay(&a),
         "digest" => cmd_digest(&a),
+        "shard" => cmd_shard(&a),
         "selftest" => {
             model_selftest();
             for (n, ok) in refhpke::optional_anchors() {
